@@ -1,7 +1,7 @@
 //! Harness crate for the solver-based checks of micromap (see /verif/DESIGN.md).
 //! Every `h_*` symbol is one proof obligation: symbolic inputs come from `vf::any_*`, the property
 //! is a set of `vf::check(cond, id)` assertions, `vf::reach(id)` are vacuity witnesses.
-#![cfg_attr(feature = "cbmc", no_std)]
+#![cfg_attr(all(feature = "cbmc", not(feature = "lto_std")), no_std)]
 #![allow(clippy::all, dead_code, unused_macros, static_mut_refs)]
 
 pub mod vf;
